@@ -25,6 +25,28 @@ pub const FRESH: u8 = 0xA5;
 /// Requests above this are refused (null) — generated arguments stay below.
 pub const MAX_REQ: usize = 1 << 30;
 
+#[cfg(feature = "asan")]
+extern "C" {
+    fn __asan_poison_memory_region(addr: *const u8, size: usize);
+    fn __asan_unpoison_memory_region(addr: *const u8, size: usize);
+}
+#[inline]
+#[allow(unused_variables)]
+unsafe fn asan_poison(addr: usize, size: usize) {
+    #[cfg(feature = "asan")]
+    if size > 0 {
+        __asan_poison_memory_region(addr as *const u8, size);
+    }
+}
+#[inline]
+#[allow(unused_variables)]
+unsafe fn asan_unpoison(addr: usize, size: usize) {
+    #[cfg(feature = "asan")]
+    if size > 0 {
+        __asan_unpoison_memory_region(addr as *const u8, size);
+    }
+}
+
 thread_local! {
     static TRACK: Cell<bool> = const { Cell::new(false) };
     static IN_HOOK: Cell<bool> = const { Cell::new(false) };
@@ -35,7 +57,14 @@ pub enum Parity {
     Even,
     Odd,
     Mixed,
+    /// byte buffers are bump-allocated back to back in an arena: no red zone between
+    /// neighbours (the ledger still knows the exact blocks), address parity follows from
+    /// the sizes. This is the "what neighbours a block" choice of the environment.
+    Packed,
 }
+
+const ARENA: usize = 256 << 10;
+const ARENA_PAD: usize = 64;
 #[derive(Clone, Copy, Debug, PartialEq, Eq)]
 pub enum ReallocMode {
     Move,
@@ -121,6 +150,8 @@ struct State {
     quarantine: std::collections::VecDeque<usize>,
     quarantine_bytes: usize,
     record_events: bool,
+    /// (base, used) of the arenas of packed mode
+    arenas: Vec<(usize, usize)>,
 }
 
 struct Global {
@@ -175,6 +206,7 @@ fn with_state<R>(f: impl FnOnce(&mut State) -> R) -> Option<R> {
             quarantine: Default::default(),
             quarantine_bytes: 0,
             record_events: true,
+            arenas: Vec::new(),
         });
     }
     Some(f(st.as_mut().unwrap()))
@@ -210,7 +242,19 @@ pub fn begin_run(cfg: AllocCfg) {
     with_state(|s| {
         let blocks = std::mem::take(&mut s.blocks);
         for (_, b) in blocks {
-            unsafe { System.dealloc(b.raw as *mut u8, Layout::from_size_align_unchecked(b.raw_size, b.raw_align)) };
+            if b.raw_size == 0 {
+                continue; // lives in an arena
+            }
+            unsafe {
+                asan_unpoison(b.raw, b.raw_size);
+                System.dealloc(b.raw as *mut u8, Layout::from_size_align_unchecked(b.raw_size, b.raw_align))
+            };
+        }
+        for (base, _) in std::mem::take(&mut s.arenas) {
+            unsafe {
+                asan_unpoison(base, ARENA);
+                System.dealloc(base as *mut u8, Layout::from_size_align_unchecked(ARENA, 16));
+            }
         }
         s.cfg = cfg;
         s.events.clear();
@@ -279,10 +323,30 @@ pub fn block_by_id(id: u32) -> Option<BlockInfo> {
 
 /// Check canaries of live blocks (and, if `full`, canaries + poison of quarantined ones).
 pub fn verify(full: bool) {
+    if cfg!(feature = "asan") {
+        // red zones and quarantined blocks are poisoned: ASAN reports the offending access
+        // itself, and reading them here would trip it
+        let _ = full;
+        return;
+    }
     with_state(|s| {
         let mut found: Vec<String> = Vec::new();
         for b in s.blocks.values() {
             if !b.live && !full {
+                continue;
+            }
+            if b.raw_size == 0 {
+                // packed block: no red zones of its own; poison of a freed one is still checked
+                if !b.live {
+                    unsafe {
+                        for i in 0..b.size {
+                            if *(b.user as *const u8).add(i) != POISON {
+                                found.push(format!("write after free: block#{} (size {}, align {}) byte {} modified after it was freed", b.id, b.size, b.align, i));
+                                break;
+                            }
+                        }
+                    }
+                }
                 continue;
             }
             unsafe {
@@ -350,11 +414,48 @@ impl State {
         }
         let d = self.decision(1);
         let byteish = align == 1 && size > 0;
+        if byteish && self.cfg.parity == Parity::Packed && size <= ARENA / 4 {
+            let need_new = match self.arenas.last() {
+                Some((_, used)) => used + size + ARENA_PAD > ARENA,
+                None => true,
+            };
+            if need_new {
+                let base = System.alloc(Layout::from_size_align_unchecked(ARENA, 16));
+                if base.is_null() {
+                    return base;
+                }
+                std::ptr::write_bytes(base, CANARY, ARENA);
+                self.arenas.push((base as usize, ARENA_PAD));
+            }
+            let (base, used) = self.arenas.last_mut().unwrap();
+            let user = (*base + *used) as *mut u8;
+            *used += size;
+            std::ptr::write_bytes(user, FRESH, size);
+            let id = self.next_id;
+            self.next_id += 1;
+            self.blocks.insert(user as usize, Block { id, user: user as usize, size, align, raw: user as usize, raw_size: 0, raw_align: 1, front: 0, live: true, born_op: self.op_uid });
+            self.stats.allocs += 1;
+            self.stats.align1_allocs += 1;
+            if (user as usize) & 1 == 1 {
+                self.stats.odd_placements += 1;
+            } else {
+                self.stats.even_placements += 1;
+            }
+            self.stats.live_blocks += 1;
+            self.stats.live_bytes += size;
+            if self.stats.live_bytes > self.stats.peak_live_bytes {
+                self.stats.peak_live_bytes = self.stats.live_bytes;
+            }
+            if self.record_events {
+                self.events.push(Event { kind: EvKind::Alloc, align, size, id });
+            }
+            return user;
+        }
         let front_base = if align > RZ { align } else { RZ };
         let want_odd = match self.cfg.parity {
             Parity::Even => false,
             Parity::Odd => true,
-            Parity::Mixed => d & 1 == 1,
+            Parity::Mixed | Parity::Packed => d & 1 == 1,
         };
         let pad = if byteish && want_odd { 1 } else { 0 };
         let slack = if byteish && self.cfg.realloc != ReallocMode::Move {
@@ -376,6 +477,8 @@ impl State {
         std::ptr::write_bytes(raw, CANARY, raw_size);
         let user = raw.add(front);
         std::ptr::write_bytes(user, FRESH, size);
+        asan_poison(raw as usize, front);
+        asan_poison(user as usize + size, raw_size - front - size);
         let id = self.next_id;
         self.next_id += 1;
         self.blocks.insert(
@@ -438,7 +541,7 @@ impl State {
             ));
         }
         // canaries
-        {
+        if !cfg!(feature = "asan") && self.blocks.get(&addr).map(|b| b.raw_size > 0).unwrap_or(false) {
             let b = self.blocks.get(&addr).unwrap();
             let raw = b.raw as *const u8;
             let mut bad: Option<String> = None;
@@ -469,6 +572,7 @@ impl State {
             }
         }
         std::ptr::write_bytes(ptr, POISON, size);
+        asan_poison(ptr as usize, size);
         self.stats.deallocs += 1;
         self.stats.live_blocks -= 1;
         self.stats.live_bytes -= size;
@@ -481,6 +585,10 @@ impl State {
             if let Some(old) = self.quarantine.pop_front() {
                 if let Some(b) = self.blocks.remove(&old) {
                     self.quarantine_bytes -= b.size;
+                    if b.raw_size == 0 {
+                        continue;
+                    }
+                    asan_unpoison(b.raw, b.raw_size);
                     System.dealloc(b.raw as *mut u8, Layout::from_size_align_unchecked(b.raw_size, b.raw_align));
                 }
             } else {
@@ -635,7 +743,11 @@ unsafe impl GlobalAlloc for SimAlloc {
                 let d = s.decision(2);
                 let room = {
                     let b = s.blocks.get(&addr).unwrap();
-                    b.raw_size - b.front - RZ
+                    if b.raw_size == 0 {
+                        b.size // packed: may only shrink in place
+                    } else {
+                        b.raw_size - b.front - RZ
+                    }
                 };
                 let inplace_ok = new_size <= room && new_size > 0;
                 let choose_inplace = inplace_ok
@@ -648,9 +760,11 @@ unsafe impl GlobalAlloc for SimAlloc {
                     let b = s.blocks.get_mut(&addr).unwrap();
                     let old = b.size;
                     if new_size > old {
+                        asan_unpoison(ptr as usize + old, new_size - old);
                         std::ptr::write_bytes(ptr.add(old), FRESH, new_size - old);
                     } else {
                         std::ptr::write_bytes(ptr.add(new_size), CANARY, old - new_size);
+                        asan_poison(ptr as usize + new_size, old - new_size);
                     }
                     b.size = new_size;
                     s.stats.live_bytes = s.stats.live_bytes + new_size - old;
